@@ -53,6 +53,13 @@ KERNEL_CONS = [
     # StopSimulation.callback
     ("FxRaiseStopValue", ""),               # raise cls(event.value)
     ("FxRaiseEventValue", ""),              # raise event._value
+    # Event.trigger, Process.__init__
+    ("FxCopyOk", ""),                       # self._ok = event._ok
+    ("FxCopyValue", ""),                    # self._value = event._value
+    ("FxRaiseNotGenerator", ""),            # raise ValueError(f'{generator} is not a generator.')
+    ("FxSetCallbacksEmpty", ""),            # self.callbacks: EventCallbacks = []
+    ("FxSetGenerator", ""),                 # self._generator = generator
+    ("FxNewInitialize", ""),                # self._target: Event = Initialize(env, self)
 ]
 
 STEP_TRY = """try:
@@ -84,6 +91,7 @@ KERNEL_FX = [
     ("raise exc", "FxRaiseFailure", []),
     ("raise RuntimeError(f'{self} has already been triggered')", "FxRaiseAlreadyTriggered", []),
     ("raise ValueError(f'{exception} is not an exception.')", "FxRaiseNotException", []),
+    ("self._ok = event._ok", "FxCopyOk", []),
     ("self._ok = _1", "FxSetOk", ["bool"]),
     ("self._value = value", "FxSetValueArg", []),
     ("self._value = exception", "FxSetValueArg", []),
@@ -110,6 +118,12 @@ KERNEL_FX = [
     ("Interruption(self, cause)", "FxNewInterruption", []),
     ("raise cls(event.value)", "FxRaiseStopValue", []),
     ("raise event._value", "FxRaiseEventValue", []),
+    ("self._ok = event._ok", "FxCopyOk", []),
+    ("self._value = event._value", "FxCopyValue", []),
+    ("raise ValueError(f'{generator} is not a generator.')", "FxRaiseNotGenerator", []),
+    ("self.callbacks: EventCallbacks = []", "FxSetCallbacksEmpty", []),
+    ("self._generator = generator", "FxSetGenerator", []),
+    ("self._target: Event = Initialize(env, self)", "FxNewInitialize", []),
 ]
 
 
@@ -143,6 +157,9 @@ def _specs(repo):
         S(ev, "Interruption", "_interrupt", [("self.process.triggered", "process_triggered", "bool")]),
         S(ev, "Process", "interrupt"),
         S(core, "StopSimulation", "callback", [("event.ok", "ok", "bool")], decorator="classmethod"),
+        S(ev, "Event", "trigger"),
+        S(ev, "Process", "__init__", [("hasattr(generator, 'throw')", "is_generator", "bool")], name="gen_Process_init"),
+        S(ev, "Process", "is_alive", [("self._value is PENDING", "pending", "bool")], decorator="property", ret="bool"),
     ]
 
 
